@@ -279,10 +279,10 @@ class InterpolatedLinearOperator(LinearOperator):
         n_right_rows = self.right_interp_indices.size(-2)
         n_left_interp = self.left_interp_indices.size(-1)
         n_right_interp = self.right_interp_indices.size(-1)
-        n_inducing = right_res.size(-2)
 
         # left_interp_values grad
         right_interp_right_res = self.base_linear_op._matmul(right_res).contiguous()
+        n_inducing = right_interp_right_res.size(-2)  # rows of the base operator (it need not be square)
         batch_shape = torch.Size(right_interp_right_res.shape[:-2])
         batch_size = batch_shape.numel()
         if len(batch_shape):
@@ -300,6 +300,7 @@ class InterpolatedLinearOperator(LinearOperator):
 
         # right_interp_values_grad
         left_interp_left_res = self.base_linear_op._t_matmul(left_res).contiguous()
+        n_inducing = left_interp_left_res.size(-2)  # columns of the base operator
         batch_shape = left_interp_left_res.shape[:-2]
         batch_size = batch_shape.numel()
         if len(batch_shape):
